@@ -575,6 +575,7 @@ class Terms:
 
     def reaching(self, local, proj, bb, idx):
         """set of defs (bb, idx, kind, proj, payload) of local overlapping proj that reach (bb, idx)."""
+        self._entry_reached = False  # never a stale answer from an earlier query
         cands = [d for d in self.defs.get(local, []) if self._overlaps(d[3], proj)]
         if not cands:
             return []
